@@ -112,7 +112,7 @@ PROPS = {
         "level": "proof",
         "lean_modules": ["SqlizeModel.Props.C13"],
         "theorems": ["Sqlize.C13.default_order", "Sqlize.C13.ignore_same_statements", "Sqlize.C13.ignore_no_position", "Sqlize.C13.ignore_appends", "Sqlize.C13.printed_ignore", "Sqlize.walkCols_up_ignore_refines"],
-        "suites": [{"name": "pair"}],
+        "suites": [{"name": "pair"}, {"name": "history"}],
         "corr_points": ["load-old", "load-new", "state-old", "state-new", "Diff", "state-diff", "StringUp", "StringDown"],
         "rule": PAIR_RULE,
         "trusted_base": COMMON_TB + PAIR_TB,
